@@ -54,9 +54,9 @@ let kvs l = String.concat "," (List.map (fun (a, b) -> iz a ^ "=" ^ iz b) l)
 let st_str (s : st) =
   Printf.sprintf "m=%s o=%s p=%s t=%s out=%s maps=%s/%s/%s/%s" (mode_str s.md) (iz s.owner)
     (String.concat "," (List.map proc_str s.k.procs))
-    (String.concat ";" (List.map job_str s.k.tab))
+    (String.concat ";" (List.map job_str s.k.shl.tab))
     (String.concat ";" (List.map out_str s.k.outs))
-    (kvs s.k.mps.m_reap) (zs s.k.mps.m_stop) (zs s.k.mps.m_cont) (kvs s.k.mps.m_kill)
+    (kvs s.k.shl.mp.m_reap) (zs s.k.shl.mp.m_stop) (zs s.k.shl.mp.m_cont) (kvs s.k.shl.mp.m_kill)
 
 let c0 = { c_sh = z_of_int 1; c_hasterm = true; c_isatty = true }
 
